@@ -470,6 +470,9 @@ FILTER_ARGS = {"batch": "(2)", "slice": "(2)", "join": "(',')", "attr": "('x')",
                "truncate": "(5)", "indent": "()", "center": "(9)", "default": "('D')", "d": "('D')", "groupby": "('real')",
                "map": "('string')", "select": "('defined')", "reject": "('none')", "selectattr": "('real')", "rejectattr": "('nope')",
                "sum": "(start=0)", "wordwrap": "(5)", "dictsort": "()", "xmlattr": "()", "tojson": "()", "urlize": "()"}
+KNOWN_NO_ARGS = {"abs", "capitalize", "count", "dictsort", "e", "escape", "filesizeformat", "first", "float", "forceescape", "int", "items",
+                 "last", "length", "list", "lower", "max", "min", "pprint", "random", "reverse", "safe", "sort", "string", "striptags", "title",
+                 "trim", "unique", "upper", "urlencode", "wordcount"}
 TEST_ARGS = {"divisibleby": "(2)", "eq": "(1)", "==": "(1)", "equalto": "(1)", "ne": "(1)", "!=": "(1)", "lt": "(1)", "<": "(1)", "lessthan": "(1)",
              "le": "(1)", "<=": "(1)", "gt": "(1)", ">": "(1)", "greaterthan": "(1)", "ge": "(1)", ">=": "(1)", "in": "([[1]])", "sameas": "(1)"}
 # how a filter's result is printed (a consumer may itself return an iterator)
@@ -485,8 +488,9 @@ def consumer_probes(filters, tests):
         for name in sorted(filters):
             if not name.isidentifier():
                 continue
-            args = FILTER_ARGS.get(name, "")
-            out.append((name, "{%% set r = %s|%s%s %%}{{ r if r is string or r is number or r is mapping or r is undefined else (r|list|string) }}" % (base, name, args)))
+            # a filter this table does not know (a new one) is tried with a few argument shapes
+            for args in ([FILTER_ARGS[name]] if name in FILTER_ARGS else [""] if name in KNOWN_NO_ARGS else ["", "(2)", "('real')"]):
+                out.append((name, "{%% set r = %s|%s%s %%}{{ r if r is string or r is number or r is mapping or r is undefined else (r|list|string) }}" % (base, name, args)))
         for name in sorted(tests):
             if not name.isidentifier():
                 continue
